@@ -1,19 +1,23 @@
 // UNIT common.v9 -- impl From<&V9> for NetflowCommon, verbatim from src/netflow_common.rs:120-176 (Option
 // combinators replaced by their definitions, R22; `.try_into()` through the R21 wrapper; the BTreeMap re-keying statement
-// is a contracted stub, R5).  C13: version and timestamp are the header's; exactly one common flow per data record, in
+// `values().cloned().collect()` replaced by the loop that defines it, R31).  C13: version and timestamp are the header's; exactly one common flow per data record, in
 // flowset order then record order (nothing for template / options flowsets); each flow's fields are the conversions
 // of the record's values under the V9 field types the property names, absent iff the record has no such field or the
 // conversion fails.
 //@ include prelude.rs
 verus! {
+use std::collections::btree_map::Iter;
+use vstd::std_specs::iter::IteratorSpec;
+use vstd::std_specs::btree::*;
 #[verifier::external_body] pub struct FieldValue { _p: () }
+impl Clone for FieldValue { #[verifier::external_body] fn clone(&self) -> (r: Self) ensures r == *self { unimplemented!() } }
 #[verifier::external_body] pub struct ProtocolTypes { _p: () }
 #[verifier::external_body] pub struct Templates { _p: () }
 #[verifier::external_body] pub struct OptionsTemplates { _p: () }
 #[verifier::external_body] pub struct OptionsData { _p: () }
 #[verifier::external_type_specification] #[verifier::external_body] pub struct ExIpAddr(std::net::IpAddr);
 pub use std::net::IpAddr;
-//@ type src/variable_versions/v9_lookup.rs - V9Field
+//@ type src/variable_versions/v9_lookup.rs - V9Field ord
 //@ alias src/variable_versions/v9.rs - V9FieldPair
 //@ type src/variable_versions/v9.rs - V9
 //@ type src/variable_versions/v9.rs - Header
@@ -25,18 +29,25 @@ pub use std::net::IpAddr;
 //@ type src/netflow_common.rs - NetflowCommonFlowSet
 pub type V9FlowSetBody = FlowSetBody;
 
-/// the record re-keyed by field type: `data_field.values().cloned().collect::<BTreeMap<V9Field, FieldValue>>()`
-#[verifier::external_body] pub struct VfValueMap { _p: () }
-pub uninterp spec fn vm_get(m: VfValueMap, k: V9Field) -> Option<FieldValue>;
-pub uninterp spec fn record_map(df: BTreeMap<usize, V9FieldPair>) -> VfValueMap;
-impl VfValueMap {
-    #[verifier::external_body]
-    pub fn get(&self, k: &V9Field) -> (r: Option<&FieldValue>)
-        ensures match r { Some(v) => vm_get(*self, *k) == Some(*v), None => vm_get(*self, *k) is None },
-    { unimplemented!() }
-}
+/// ASSUMED: derive(Ord) on the field-type enum is a total order consistent with == (what vstd's BTreeMap model needs)
+pub axiom fn axiom_field_key_model()
+    ensures key_obeys_cmp_spec::<V9Field>();
+/// the pairs of a record map in ITERATION order (std: ascending key order; vstd: an enumeration without order)
+pub uninterp spec fn bt_seq<'a>(m: &'a BTreeMap<usize, V9FieldPair>) -> Seq<(&'a usize, &'a V9FieldPair)>;
+// R27/R31 wrapper: `m.iter()` / `m.values()` on a record map (the body is the original call); ties the iterator to bt_seq
 #[verifier::external_body]
-pub fn vf_value_map(df: &BTreeMap<usize, V9FieldPair>) -> (r: VfValueMap) ensures r == record_map(*df) { unimplemented!() }
+pub fn vf_bt_iter<'a>(m: &'a BTreeMap<usize, V9FieldPair>) -> (it: Iter<'a, usize, V9FieldPair>)
+    ensures it.remaining() == bt_seq(m), bt_seq(m).len() == m@.len(),
+{ m.iter() }
+/// the record re-keyed by field type: the first n (type, value) pairs of the record, in iteration order, inserted into an
+/// empty map -- `data_field.values().cloned().collect::<BTreeMap<V9Field, FieldValue>>()` (a later pair of the same type wins)
+pub open spec fn rmap(df: &BTreeMap<usize, V9FieldPair>, n: int) -> Map<V9Field, FieldValue>
+    decreases n
+{
+    if n <= 0 { Map::<V9Field, FieldValue>::empty() } else { rmap(df, n - 1).insert(bt_seq(df)[n - 1].1.0, bt_seq(df)[n - 1].1.1) }
+}
+pub open spec fn record_map(df: &BTreeMap<usize, V9FieldPair>) -> Map<V9Field, FieldValue> { rmap(df, df@.len() as int) }
+pub open spec fn vm_get(m: Map<V9Field, FieldValue>, k: V9Field) -> Option<FieldValue> { if m.contains_key(k) { Some(m[k]) } else { None } }
 
 /// TryFrom<&FieldValue> for the five target types of the common view (leaf contracts: K.try.*)
 pub uninterp spec fn conv_ip(v: FieldValue) -> Option<IpAddr>;
@@ -66,7 +77,7 @@ pub open spec fn or2(a: Option<FieldValue>, b: Option<FieldValue>) -> Option<Fie
 pub open spec fn opt_conv<T: FvConv>(a: Option<FieldValue>) -> Option<T> { match a { Some(v) => T::conv(v), None => None } }
 /// the common flow of one record (C13: "equal the corresponding decoded fields of that record and are absent only when
 /// the record has no such field")
-pub open spec fn flow_of(m: VfValueMap) -> NetflowCommonFlowSet {
+pub open spec fn flow_of(m: Map<V9Field, FieldValue>) -> NetflowCommonFlowSet {
     NetflowCommonFlowSet {
         src_addr: opt_conv::<IpAddr>(or2(vm_get(m, V9Field::Ipv4SrcAddr), vm_get(m, V9Field::Ipv6SrcAddr))),
         dst_addr: opt_conv::<IpAddr>(or2(vm_get(m, V9Field::Ipv4DstAddr), vm_get(m, V9Field::Ipv6DstAddr))),
@@ -84,7 +95,7 @@ pub open spec fn flow_of(m: VfValueMap) -> NetflowCommonFlowSet {
 pub open spec fn flows_of_records(recs: Seq<BTreeMap<usize, V9FieldPair>>, n: int) -> Seq<NetflowCommonFlowSet>
     decreases n
 {
-    if n <= 0 { Seq::<NetflowCommonFlowSet>::empty() } else { flows_of_records(recs, n - 1).push(flow_of(record_map(recs[n - 1]))) }
+    if n <= 0 { Seq::<NetflowCommonFlowSet>::empty() } else { flows_of_records(recs, n - 1).push(flow_of(record_map(&recs[n - 1]))) }
 }
 /// the flows of the first n flowsets: data flowsets contribute their records, everything else nothing
 pub open spec fn flows_of_sets(sets: Seq<FlowSet>, n: int) -> Seq<NetflowCommonFlowSet>
@@ -101,13 +112,22 @@ pub open spec fn flows_of_sets(sets: Seq<FlowSet>, n: int) -> Seq<NetflowCommonF
 impl NetflowCommon {
 //@ fn src/netflow_common.rs - /impl From<&V9> for NetflowCommon/ from
 //@   result: r
-//@   prerules: R22
+//@   prerules: R31 R22
 //@   rules: R21
-//@   opaque "let value_map: BTreeMap<V9Field, FieldValue> =": let value_map = vf_value_map(data_field);
+//@   bodystart: proof { axiom_field_key_model(); }
 //@   ensures: r.version == value.header.version, r.timestamp == value.header.sys_up_time
 //@   ensures: r.flowsets@ =~= flows_of_sets(value.flowsets@, value.flowsets@.len() as int)
 //@   forloop 0: it0 | invariant flowsets@ =~= flows_of_sets(value.flowsets@, it0.index@)
 //@   forloop 1: it1 | invariant flowsets@ =~= flows_of_sets(value.flowsets@, it0.index@) + flows_of_records(data.fields@, it1.index@)
+//@   beforeloop 0: let ghost all = bt_seq(data_field); let ghost n = data_field@.len() as int; let ghost mut k: int = 0;
+//@   loop 0: invariant_except_break 0 <= k <= n, __bi.remaining().len() + k == n, n == all.len(), all == bt_seq(data_field), n == data_field@.len(),
+//@           forall|j: int| 0 <= j < __bi.remaining().len() ==> __bi.remaining()[j] == all[j + k],
+//@           value_map@ =~= rmap(data_field, k),
+//@       ensures k == n, value_map@ =~= rmap(data_field, k), n == data_field@.len(),
+//@       decreases n - k
+//@   loopstart 0: proof { axiom_field_key_model(); }
+//@   loopend 0: proof { k = k + 1; }
+//@   forstart 1: proof { axiom_field_key_model(); }
 //@ end
 }
 } // verus!
